@@ -222,6 +222,21 @@ fn adapt_op(op: &str, rate: f64, src: &mut GenerationSource) -> String {
         ),
         "mb" => opt(mk_mutator(&a[1].replace('.', ":")).mutate_bytes(unhex(a[2]), src, rate), |x| hex(&x)),
         "mm" => opt(mk_mutator(&a[1].replace('.', ":")).mutate_memo_index(hexu(a[2]) as usize, src, rate), |x| format!("{:x}", x)),
+        // the generator's own dispatch over a LIST of mutators ('+' separated): first one that fires wins
+        "di" | "df" | "ds" | "db" | "dm" => {
+            let mut g = Generator::new(Version::V2).with_mutators(a[1].split('+').map(|n| mk_mutator(&n.replace('.', ":"))).collect());
+            g.mutation_rate = rate;
+            match a[0] {
+                "di" => format!("{:x}", pf::verif::dispatch_int(&g, hexu(a[2]) as u32 as i32, src) as u32),
+                "df" => format!("{:x}", pf::verif::dispatch_float(&g, f64::from_bits(hexu(a[2])), src).to_bits()),
+                "ds" => {
+                    let r = pf::verif::dispatch_string(&g, String::from_utf8(unhex(a[2])).unwrap(), src);
+                    format!("v{}", hex(r.as_bytes()))
+                }
+                "db" => format!("v{}", hex(&pf::verif::dispatch_bytes(&g, unhex(a[2]), src))),
+                _ => format!("{:x}", pf::verif::dispatch_memo_index(&g, hexu(a[2]) as usize, src)),
+            }
+        }
         "pp" => {
             let delta = unhex(a[2]);
             let prefix = unhex(a[3]);
